@@ -615,3 +615,32 @@ func TimerFunc(f func(), site uint32) func() {
 		f()
 	}
 }
+
+// ---- utils.StartTimeStampUpdater ------------------------------------------------------
+
+// TimestampHook is set by the harness: called when code under test asks for the coarse clock updater
+// for the first time in a run.
+var TimestampHook func(s *Sim)
+
+// StartTimestampUpdater stands in for utils.StartTimeStampUpdater() in instrumented code. The updater
+// goroutine is the harness's simulated daemon; here it is only noted that the code asked for one.
+func StartTimestampUpdater() {
+	s := cur.Load()
+	if s == nil {
+		return
+	}
+	s.mu.Lock()
+	first := !s.tsStarted
+	s.tsStarted = true
+	s.mu.Unlock()
+	if first && TimestampHook != nil {
+		TimestampHook(s)
+	}
+}
+
+// TimestampUpdaterStarted reports whether the code under test has asked for the coarse clock updater in this run.
+func (s *Sim) TimestampUpdaterStarted() bool {
+	s.mu.Lock()
+	defer s.mu.Unlock()
+	return s.tsStarted
+}
